@@ -242,6 +242,25 @@ func (c *Ctx) constExprTerm(e ast.Expr, depth int) *T {
 		if t := c.constCallTerm(x, depth); t != nil {
 			return t
 		}
+		// errors.New("…") / fmt.Errorf("…") on constants: a sentinel error — a non-nil value with that text
+		if se, ok := x.Fun.(*ast.SelectorExpr); ok && (se.Sel.Name == "New" || se.Sel.Name == "Errorf") && len(x.Args) >= 1 {
+			if id, ok := se.X.(*ast.Ident); ok {
+				if pn, ok := info.Uses[id].(*types.PkgName); ok && ((pn.Imported().Path() == "errors" && se.Sel.Name == "New") || (pn.Imported().Path() == "fmt" && se.Sel.Name == "Errorf")) {
+					var args []*T
+					for _, a := range x.Args {
+						at := c.constExprTerm(a, depth+1)
+						if at == nil || !at.isConst() {
+							args = nil
+							break
+						}
+						args = append(args, at)
+					}
+					if args != nil {
+						return &T{Op: "call", Aux: pn.Imported().Path() + "." + se.Sel.Name, A: args, Typ: tv.Type}
+					}
+				}
+			}
+		}
 		// reflect.TypeOf(expr): the static type of the operand (a table keyed by dynamic type)
 		if se, ok := x.Fun.(*ast.SelectorExpr); ok && se.Sel.Name == "TypeOf" && len(x.Args) == 1 {
 			if id, ok := se.X.(*ast.Ident); ok {
